@@ -461,11 +461,13 @@ _COMBINATORS = {
     _RES + "and_then": {"Ok": ("call", 1, True), "Err": ("wrap", "Err", ("payload",))},
     _RES + "or_else": {"Ok": ("wrap", "Ok", ("payload",)), "Err": ("call", 1, True)},
 }
+_COMBINATORS["core::task::poll::Poll::<T>::map"] = {"Ready": ("wrap", "Ready", ("call", 1, True)), "Pending": ("unit", "Pending")}
 _COMBINATORS["core::bool::<impl bool>::then"] = {"false": ("unit", "None"), "true": ("wrap", "Some", ("call", 1, False))}
 _COMBINATORS["core::bool::<impl bool>::then_some"] = {"false": ("unit", "None"), "true": ("wrap", "Some", ("arg", 1))}
 _VARIANTS = {"core::option::Option": [("None", "0", None), ("Some", "1", 0)], "core::result::Result": [("Ok", "0", 0), ("Err", "1", 1)],
-             "bool": [("false", "0", None), ("true", "1", None)]}
-_WRAP = {"Some": ("core::option::Option", 1, 0), "None": ("core::option::Option", 0, None),
+             "bool": [("false", "0", None), ("true", "1", None)], "core::task::poll::Poll": [("Ready", "0", 0), ("Pending", "1", None)]}
+_WRAP = {"Ready": ("core::task::poll::Poll", 0, 0), "Pending": ("core::task::poll::Poll", 1, None),
+         "Some": ("core::option::Option", 1, 0), "None": ("core::option::Option", 0, None),
          "Ok": ("core::result::Result", 0, 0), "Err": ("core::result::Result", 1, 1)}
 
 
@@ -664,28 +666,43 @@ def _expand_async(facts, w, stack, budget, policy="full"):
             continue
         # the awaited value is the destination of a call of a local async fn in a directly preceding block
         ds = g.reaching(src["l"], (a.into_bb, len(g.stmts(a.into_bb))))
-        if len(ds) != 1 or ds[0][3] != "call":
-            continue
-        ct = ds[0][5]
-        f = ct["func"]
-        fn = f["const"]["fn"] if "const" in f and "fn" in f["const"] else None
-        if fn is None:
-            continue
-        pc = _PseudoCall(ct, fn)
-        tg = [d for d in pc.targets_def() if facts.bodies.get(d) is not None]
-        if not tg:
-            continue
-        hb = facts.bodies.get(tg[-1])
-        if hb is None or hb.crate is not body.crate or not hb.j.get("is_async") or hb.def_ in stack:
-            continue
-        if policy == "shallow" and _shallow_keep(facts, hb):
-            continue
-        if isinstance(policy, tuple) and policy[0] == "keep" and hb.def_ in policy[1]:
-            continue
-        kids = [k for k in facts.children.get(hb.def_, []) if k.kind == "coroutine"]
-        if len(kids) != 1:
-            continue
-        K = kids[0]
+        # ... or an `async { .. }` block of this very function that is awaited in place (`let r = async { .. }.await`)
+        hops = 0
+        while len(ds) == 1 and ds[0][3] == "assign" and not ds[0][4] and ds[0][5]["k"] == "use" and hops < 4:
+            s2 = ds[0][5]["op"].get("move")
+            if s2 is None or s2["p"]:
+                break
+            ds = g.reaching(s2["l"], (ds[0][1], ds[0][2]))
+            hops += 1
+        if len(ds) == 1 and ds[0][3] == "assign" and not ds[0][4] and ds[0][5]["k"] == "agg" and ds[0][5].get("ak") == "coroutine":
+            K = facts.bodies.get(ds[0][5].get("def"))
+            if K is None or K.crate is not body.crate:
+                continue
+            ct = {"args": [], "dest": {"l": src["l"], "p": []}}
+            fn = {"def": K.def_, "path": K.def_, "krate": body.crate.name, "local": True, "name": "{async block}", "args": []}
+        else:
+            if len(ds) != 1 or ds[0][3] != "call":
+                continue
+            ct = ds[0][5]
+            f = ct["func"]
+            fn = f["const"]["fn"] if "const" in f and "fn" in f["const"] else None
+            if fn is None:
+                continue
+            pc = _PseudoCall(ct, fn)
+            tg = [d for d in pc.targets_def() if facts.bodies.get(d) is not None]
+            if not tg:
+                continue
+            hb = facts.bodies.get(tg[-1])
+            if hb is None or hb.crate is not body.crate or not hb.j.get("is_async") or hb.def_ in stack:
+                continue
+            if policy == "shallow" and _shallow_keep(facts, hb):
+                continue
+            if isinstance(policy, tuple) and policy[0] == "keep" and hb.def_ in policy[1]:
+                continue
+            kids = [k for k in facts.children.get(hb.def_, []) if k.kind == "coroutine"]
+            if len(kids) != 1:
+                continue
+            K = kids[0]
         if K.def_ in stack or K is body or len(K.blocks) > MAX_BLOCKS or len(w.blocks) + len(K.blocks) > budget:
             continue
         # the future must flow: call dest -> into_future -> awaitee local (pinned_local), nothing else
@@ -1010,10 +1027,12 @@ class InlinedFacts:
                 ob = self.orig.bodies.get(d)
                 if ob is None:
                     continue
-                target = ob.parent if ob.kind == "coroutine" else d
+                pb_ = self.orig.bodies.get(ob.parent) if ob.kind == "coroutine" and ob.parent else None
+                helper_fut = pb_ is not None and pb_.kind == "fn" and pb_.j.get("is_async")      # the coroutine of an `async fn`
+                target = ob.parent if helper_fut else d          # (an `async { }` block awaited in place has no caller of its own)
                 if call_sites.get(target, 0) == 0:
                     ab.add(d)
-                    if ob.kind == "coroutine":
+                    if helper_fut:
                         ab.add(ob.parent)
             self._absorbed = ab
         return body.def_ in self._absorbed
